@@ -580,6 +580,9 @@ class Verifier:
         if exc is None:
             fr.exits["return"] += 1
             extra["exc"] = NONE
+            if c.raises is not None:
+                # the exception clause is an obligation of every exit: a normal return satisfies it trivially (keeps totality contracts non-vacuous)
+                ctx.oblige(I, "raises", "none" if not c.raises else "only-" + "|".join(c.raises), z3.BoolVal(True), "", text=f"raises: {c.raises}")
             for lbl, ex in c.ensures.items():
                 self.oblige_clause(I, ctx, "post", lbl, ex, sframe, extra, fr)
         else:
